@@ -450,6 +450,8 @@ pub fn encode_with_dist_header_multi(terms: &[&OwnedTerm]) -> Result<Vec<u8>, En
     }
 
     let atoms: Vec<&Atom> = atom_set.iter().copied().collect();
+    #[cfg(edp_verif)]
+    let atoms = crate::verif::order_atoms(atoms);
 
     let mut atom_index_map = HashMap::new();
     for (index, atom) in atoms.iter().enumerate() {
